@@ -99,6 +99,11 @@ func Run(w *sim.World, opt Options) *Outcome {
 		strings = append(strings, fmt.Sprintf("v%d", i))
 	}
 	wd := env.NewWorld(w)
+	if w.Choose(sim.KCfg, 2) == 1 {
+		// injected refusals: an environment resource aborts an attempt at a drawn operation (no step in the spec)
+		wd.FaultBudget = 1 + w.Choose(sim.KCfg, 6)
+		w.Probe("env_refusals_enabled")
+	}
 	r := envsys.NewRaft(wd, n, c, explore, maxFail, buf, !opt.BagNetwork, strings)
 	r.CoinP0 = []float64{0.5, 0.8, 0.95}[w.Choose(sim.KCfg, 3)]
 	out.R = r
